@@ -71,7 +71,7 @@ CheckBad(r) ==
 CheckPersist(r) ==
   /\ Report(r.export_exit = 0 /\ r.import_exit = 0, r.id, "C14", "cli-export-import-exit")
   /\ Report(r.import_out = r.export_out, r.id, "C14", "cli-import-answers-differ")
-  /\ Report(r.hash_after = r.hash_before, r.id, "C14", "cli-overwrote-existing-export")
+  /\ Report(r.hash_after = r.hash_before /\ r.changed_existing = <<>>, r.id, "C14", "cli-overwrote-existing-export")
   /\ PrintT(<<"INFO", l, r.id, "persist", 0, 0>>)
 
 Init2 == l = 1
